@@ -421,9 +421,15 @@ def description_case(ctx, sut, text, serial, hostile):
     problems = []
     if regenerated.description != text:
         problems.append(f"generated class description {regenerated.description!r}")
-    if regenerated.__doc__ != text:
+    # CPython itself refuses a class whose __doc__ holds a lone surrogate (type.__new__ encodes it): for such
+    # a description the docstring half of the statement cannot hold in any implementation, the description
+    # half must (counted separately)
+    unholdable = any("\ud800" <= char <= "\udfff" for char in text)
+    if unholdable:
+        ctx.count("docstring.impossible_lone_surrogate")
+    if regenerated.__doc__ != text and not unholdable:
         problems.append(f"generated docstring {regenerated.__doc__!r}")
-    if inner.description != text[::-1] or inner.__doc__ != text[::-1]:
+    if inner.description != text[::-1] or (inner.__doc__ != text[::-1] and not unholdable):
         problems.append(f"nested class description/docstring {inner.description!r}/{inner.__doc__!r}")
     if problems:
         ctx.witness("description_lost_in_python", case, "; ".join(problems))
